@@ -10,6 +10,7 @@ import PoetryVerif.Proofs.VRangeDiff
 import PoetryVerif.Proofs.VRangeWalk
 import PoetryVerif.Proofs.VRangeSort
 import PoetryVerif.Proofs.VRangeSep
+import PoetryVerif.Proofs.VRangeInv
 
 set_option linter.unusedSimpArgs false
 set_option linter.unusedVariables false
@@ -372,6 +373,70 @@ theorem union_intersect_exact_partial (rs : List RC) (b : VC)
     · rintro ⟨q, hq, c, hc, hcp⟩; exact ⟨c, ⟨q, hq, hc⟩, hcp⟩
   rw [e1, hsem p hp hreg, Bool.and_eq_true]
   rfl
+
+/-! ## union level: `VersionRange.difference(VersionUnion)`, `_inverted`, and `VersionUnion.allows` itself -/
+
+/-- **a member-level difference has the shape the union-level loops rely on**: its members are well-formed and
+tidy over the operands' bounds, it is exact, and when it is a union it is `[before, after]` in that order with
+`before` entirely below the subtrahend's lower end.  Side conditions: `allows_higher` agrees with the written
+ends (range ∖ range), the version is regular for the range's bounds (range ∖ version). -/
+theorem member_difference_structure (cur r : RC) (hc : cur.WF) (hct : cur.Tidy) (hr : r.WF) (hrt : r.Tidy)
+    (hside : ∀ a, cur = .rng a →
+      (∀ b, r = .rng b → VRange.EndsConsistent a b) ∧ (∀ v, r = .ver v → Regular a.bounds v))
+    (d : VC) (h : RC.difference cur r = .ok d) : DiffSpec cur r d :=
+  difference_spec cur r hc hct hr hrt hside d h
+
+/-- **range ∖ union is exact whenever it returns** (`VersionRange.difference(VersionUnion)`, the loop with the
+repo fixes 5180da8): for a union whose members are well-formed, tidy, inhabited and sorted, with all bounds in
+play mutually regular (`MutReg`: any two are equal or of different releases). -/
+theorem range_minus_union_exact_partial (r : VRange) (rs : List RC) (hr : r.WF) (hrt : r.Tidy)
+    (hm : ∀ c ∈ rs, UMember c) (hs : SortedRC rs) (hB : MutReg (boundsOf rs ++ r.bounds))
+    (res : VC) (h : VC.difference (.single (.rng r)) (.union rs) = .ok res) :
+    ∀ p, p.wf = true → Regular (boundsOf rs ++ r.bounds) p →
+      res.allowsPlain p = (r.allows p && !(VC.union rs).allowsPlain p) := by
+  intro p hp hreg
+  obtain ⟨_, _, g3⟩ := rngDiffUnionLoop_sem _ hB rs (.rng r) [] res h hm hs hr hrt (by simp [Good]) (by
+    intro e he
+    simp only [List.mem_append]
+    rcases he with h' | h' | h'
+    · exact Or.inl h'
+    · exact Or.inr h'
+    · simp [boundsOf] at h')
+  rw [g3 p hp hreg]
+  simp [anyAllows, VC.allowsPlain, VC.flatten, RC.allows]
+
+/-- **`VersionUnion.allows` is the disjunction over the members** on regular probes, whenever it returns: the
+special path for unions excluding a single *local* version (`!=1.0+local`) agrees with it, because
+`VersionUnion._inverted` is the complement.  `UnionOK rs`: members well-formed, tidy, inhabited, sorted, bounds
+mutually regular. -/
+theorem union_allows_eq_plain_partial (rs : List RC) (hok : UnionOK rs) (p : Version) (hp : p.wf = true)
+    (hreg : Regular (boundsOf rs) p) (b : Bool) (h : VC.allows (.union rs) p = .ok b) :
+    b = (VC.union rs).allowsPlain p ∧
+    ∀ inv, VC.inverted rs = .ok inv → inv.allowsPlain p = !(VC.union rs).allowsPlain p :=
+  ⟨union_allows_eq_plain rs hok p hp hreg b h, fun inv hinv => (inverted_sem rs hok inv hinv).2.2 p hp hreg⟩
+
+def exU : List RC :=
+  [.rng ⟨none, some (Version.mk' 0 [1, 0] none none none (some ["local"])), false, false⟩,
+   .rng ⟨some (Version.mk' 0 [1, 0] none none none (some ["local"])), none, false, false⟩]
+
+/-- the hypotheses are met by `!=1.0+local`, the case where the special path is taken -/
+example : UnionOK exU ∧ VC.excludedSingleVersion exU = .ok (some (Version.mk' 0 [1, 0] none none none (some ["local"]))) := by
+  refine ⟨⟨?_, ?_, ?_⟩, by decide⟩
+  · intro c hc
+    simp only [exU, List.mem_cons, List.mem_nil_iff, or_false] at hc
+    rcases hc with rfl | rfl
+    · refine ⟨⟨?_, ?_⟩, ⟨fun _ => rfl, fun h => by simp at h⟩, by show VRange.isStrictlyLower _ _ = false; decide⟩
+      · intro e he; simp [RC.bounds, RC.view, VRange.bounds, RC.min, RC.max] at he; subst he; decide
+      · intro m M hm; simp at hm
+    · refine ⟨⟨?_, ?_⟩, ⟨fun h => by simp at h, fun _ => rfl⟩, by show VRange.isStrictlyLower _ _ = false; decide⟩
+      · intro e he; simp [RC.bounds, RC.view, VRange.bounds, RC.min, RC.max] at he; subst he; decide
+      · intro m M hm hM; simp at hM
+  · simp only [SortedRC, exU, List.pairwise_cons, List.mem_singleton, forall_eq, List.not_mem_nil, false_implies,
+      implies_true, List.Pairwise.nil, and_true]
+    decide
+  · intro x hx y hy
+    simp [exU, boundsOf, RC.bounds, RC.view, VRange.bounds, RC.min, RC.max] at hx hy
+    subst hx; subst hy; exact Or.inl rfl
 
 /-! ## the property at full strength -/
 
